@@ -380,6 +380,51 @@ func ExtractProtocol(repo string) (*Protocol, error) {
 	return p, nil
 }
 
+const hookFile = "core/store/ledgerstore/verif_hooks_c01.go"
+
+// CompareHook checks that VerifSubmitBlockStaged (the verif-tagged staged copy used to copy the data
+// directory at every crash point) is submitBlock statement for statement, apart from its cb(...)
+// calls. Any difference disqualifies the copy.
+func CompareHook(repo string) error {
+	fset := token.NewFileSet()
+	f, err := parser.ParseFile(fset, filepath.Join(repo, ledgerStoreFile), nil, 0)
+	if err != nil {
+		return err
+	}
+	g, err := parser.ParseFile(fset, filepath.Join(repo, hookFile), nil, 0)
+	if err != nil {
+		return err
+	}
+	a, b := findMethod(f, "submitBlock"), findMethod(g, "VerifSubmitBlockStaged")
+	if a == nil || b == nil {
+		return fmt.Errorf("submitBlock or VerifSubmitBlockStaged not found")
+	}
+	var sa, sb []string
+	for _, st := range a.Body.List {
+		sa = append(sa, printNode(fset, st))
+	}
+	for _, st := range b.Body.List {
+		t := printNode(fset, st)
+		if strings.HasPrefix(t, "cb(") {
+			continue
+		}
+		sb = append(sb, t)
+	}
+	if len(sa) != len(sb) {
+		return fmt.Errorf("staged copy has %d statements, submitBlock has %d", len(sb), len(sa))
+	}
+	for i := range sa {
+		if sa[i] != sb[i] {
+			return fmt.Errorf("statement %d differs: submitBlock has %q, the staged copy has %q", i, sa[i], sb[i])
+		}
+	}
+	pa, pb := printNode(fset, a.Type.Params), printNode(fset, b.Type.Params)
+	if !strings.HasPrefix(pb, strings.TrimSuffix(pa, ")")) {
+		return fmt.Errorf("parameter lists differ: %s vs %s", pa, pb)
+	}
+	return nil
+}
+
 func coqSteps(ss []Step) string {
 	var s []string
 	for _, x := range ss {
@@ -457,6 +502,12 @@ func produceRecoverV(repo string) ([]byte, []string) {
 		fmt.Fprintf(&b, "Definition init_state_tree_size (h shh : Z) : Z := %s.\n\n", exps[1][1])
 	}
 	fmt.Fprintf(&b, "(* common.UINT256_SIZE (linked value) *)\nDefinition UINT256_SIZE : Z := %d.\n\n", common.UINT256_SIZE)
+	if err := CompareHook(repo); err != nil {
+		errs = append(errs, "hook copy out of sync: "+err.Error())
+		fmt.Fprintf(&b, "(* VerifSubmitBlockStaged differs from submitBlock: %s *)\n\n", strings.ReplaceAll(err.Error(), "*)", "* )"))
+	} else {
+		fmt.Fprintf(&b, "(* %s: VerifSubmitBlockStaged is submitBlock statement for statement (checked on this run) *)\n\n", hookFile)
+	}
 	for _, s := range extraSites {
 		r := gen.TranslateSite(repo, s)
 		fmt.Fprintf(&b, "(* %s : %s, func %s, %s\n   Go: %s *)\n", s.Name, s.File, s.Func, s.Loc, strings.ReplaceAll(r.GoExpr, "*)", "* )"))
